@@ -194,9 +194,78 @@ func (fr *Frame) havocAll(st *State) {
 	}
 }
 
+// callSiteClauses: assert / assume / ghost clauses attached to a call site by the contract of the
+// function being verified (keyed "callee#n").
+func (fr *Frame) callSiteClauses(st *State, in ssa.Instruction, recv *Val, args []*Val) {
+	c := fr.c
+	ord := c.callOrd[in]
+	if fr.contract == nil || c.dry > 0 && false {
+		return
+	}
+	for i, a := range fr.contract.Asserts[ord] {
+		env := fr.envAt(st)
+		if recv != nil {
+			env.vars["recv"] = recv
+		}
+		for k, av := range args {
+			env.vars[fmt.Sprintf("arg%d", k)] = av
+		}
+		if a.Kind == "assume_after" {
+			continue // applied by callSiteAfter
+		}
+		if a.Kind == "assume" {
+			t, err := env.evalClause(a.E)
+			if err != nil {
+				c.errorf("%s: assume at %s: %v", fr.fn.Name(), ord, err)
+				continue
+			}
+			c.addFact(st, t)
+			c.trusted["ASSUMED in "+shortFn(fr.fn.RelString(nil))+" at "+ord+": "+a.Text] = true
+			continue
+		}
+		if a.Kind == "ghost" {
+			if err := c.ghostAssign(env, a); err != nil {
+				c.errorf("%s: ghost update at %s: %v", fr.fn.Name(), ord, err)
+			}
+			continue
+		}
+		t, err := env.evalClause(a.E)
+		if err != nil {
+			c.errorf("%s: assert at %s: %v", fr.fn.Name(), ord, err)
+			continue
+		}
+		c.oblige(fr, st, "assert", fmt.Sprintf("assert#%d@call:%s", i+1, ord), t, clauseTags(a, fr.contract), a.Text, false)
+		c.addFact(st, t)
+	}
+}
+
+// callSiteAfter: `assume_after` clauses, evaluated in the state right after the call returned
+// (e.g. after a lock acquisition has havocked the protected state). Listed as assumptions.
+func (fr *Frame) callSiteAfter(st *State, in ssa.Instruction) {
+	c := fr.c
+	if fr.contract == nil {
+		return
+	}
+	ord := c.callOrd[in]
+	for _, a := range fr.contract.Asserts[ord] {
+		if a.Kind != "assume_after" {
+			continue
+		}
+		env := fr.envAt(st)
+		t, err := env.evalClause(a.E)
+		if err != nil {
+			c.errorf("%s: assume_after at %s: %v", fr.fn.Name(), ord, err)
+			continue
+		}
+		c.addFact(st, t)
+		c.trusted["ASSUMED in "+shortFn(fr.fn.RelString(nil))+" after "+ord+": "+a.Text] = true
+	}
+}
+
 func (fr *Frame) unknownCall(st *State, in ssa.Instruction, what string, sig *types.Signature) *Val {
 	c := fr.c
 	c.unknown[what] = true
+	fr.callSiteClauses(st, in, nil, nil)
 	pre := st.clone()
 	fr.havocAll(st)
 	fr.restoreLocked(pre, st)
@@ -269,9 +338,17 @@ func (fr *Frame) applyContract(st *State, in ssa.Instruction, ct *Contract, sig 
 	pkg := c.pkgOfContract(ct, callee)
 	ord := c.callOrd[in]
 	// user assertions attached to this call site
-	if fr.contract != nil {
+	fr.callSiteClauses(st, in, recv, args)
+	if false {
 		for i, a := range fr.contract.Asserts[ord] {
 			env := fr.envAt(st)
+			// the call's actual receiver and arguments are available as recv, arg0, arg1, ...
+			if recv != nil {
+				env.vars["recv"] = recv
+			}
+			for k, av := range args {
+				env.vars[fmt.Sprintf("arg%d", k)] = av
+			}
 			if a.Kind == "assume" {
 				// environment assumption (e.g. about a value received from a channel): not proved,
 				// listed in the evidence
@@ -352,6 +429,7 @@ func (fr *Frame) applyContract(st *State, in ssa.Instruction, ct *Contract, sig 
 		c.addFact(st, t)
 	}
 	fr.lockHook(st, in, ct, recv, false)
+	fr.callSiteAfter(st, in)
 	return resultVal(sig, results)
 }
 
@@ -612,8 +690,16 @@ func (fr *Frame) execAppend(st *State, in ssa.Instruction, s, more *Val, rt type
 			Implies(Or(Lt(j, Add(off, s.Len)), Ge(j, Add(off, newLen))), Eq(Select(a, j), Select(srcArrs[i], j))))))
 		newArrs[i] = a
 	}
-	h.setElemArrays(ref, et, newArrs)
-	return &Val{K: VSlice, T: rt, Ref: ref, Off: off, Len: newLen, Cap: cp}
+	// name the result's components (keeps ite out of quantifier patterns)
+	nref, noff, ncp := Fresh("app.ref", SInt), Fresh("app.off", SInt), Fresh("app.cap", SInt)
+	c.addFact(st, And(Eq(nref, ref), Eq(noff, off), Eq(ncp, cp)))
+	h.setElemArrays(nref, et, newArrs)
+	r := &Val{K: VSlice, T: rt, Ref: nref, Off: noff, Len: newLen, Cap: ncp}
+	for _, f := range typeInv(r) {
+		c.addFact(st, f)
+	}
+	c.addFact(st, Lt(nref, st.ac))
+	return r
 }
 
 func (fr *Frame) execCopy(st *State, dst, src *Val, srcT types.Type, rt types.Type) *Val {
